@@ -10,7 +10,7 @@
    parts as sequences). *)
 From Coq Require Import ZArith QArith List Lia Permutation.
 Import ListNotations.
-Require Import C20_Model C20_Locate C20_Combi C20_Proofs.
+Require Import C20_Model C20_Locate C20_Combi C20_Affine C20_Proofs.
 Local Open Scope Z_scope.
 
 (* ================================================================== vertices (every dimension) *)
@@ -205,6 +205,32 @@ Theorem C20_locate_q_encoding : forall (xs : list Q) (q : Q), In q xs ->
   (Qnum q * (Zpos (qden_prod xs) / Zpos (Qden q)) # qden_prod xs == q)%Q.
 Proof. exact locate_q_encoding. Qed.
 Print Assumptions C20_locate_q_encoding.
+
+(* triangulations with a matrix and an offset: the affine map x -> M (x / scale) + offset (cart_q; cart on lattice
+   vertices = cartesian_coordinates) carries the convex combination to the cartesian coordinates of the vertices.
+   qcomb ws D ps r = sum_j (w_j / D) * (p_j)_r *)
+Theorem C20_affine_barycentric : forall M off scale (ws : list Z) (vs : list vertex) (ns : list Z) (D : Z) (d : nat),
+  (0 < D)%Z -> zsum ws = D -> length ws = length vs ->
+  Forall (fun v => length v = d) vs -> length ns = d ->
+  Forall (fun row => length row = d) M -> length off = length M ->
+  (forall i, (i < d)%nat -> nthz ns i = comb_coord ws vs i) ->
+  forall r, (r < length M)%nat ->
+    (qcomb ws D (map (cart M off scale) vs) r ==
+     nth r (cart_q M off scale (map (fun n => inject_Z n / inject_Z D) ns)) 0)%Q.
+Proof. exact affine_barycentric. Qed.
+Print Assumptions C20_affine_barycentric.
+
+(* the property as stated, for every matrix, offset and scale: the point p = M (x / scale) + offset is the strictly
+   positive convex combination, with the weights of the located simplex, of the cartesian coordinates of its vertices *)
+Theorem C20_locate_affine_barycentric : forall M off scale (ns : list Z) (D : Z),
+  (0 < D)%Z -> Forall (fun row => length row = length ns) M -> length off = length M ->
+  let s := locate_z ns D in let ws := locate_weights ns D in
+  Forall (fun w => (0 < w)%Z) ws /\ zsum ws = D /\ length ws = length (vertex_range s) /\
+  forall r, (r < length M)%nat ->
+    (qcomb ws D (map (cart M off scale) (vertex_range s)) r ==
+     nth r (cart_q M off scale (map (fun n => inject_Z n / inject_Z D) ns)) 0)%Q.
+Proof. exact locate_affine_barycentric. Qed.
+Print Assumptions C20_locate_affine_barycentric.
 
 (* ================================================================== translation invariance (every dimension) *)
 Theorem C20_shift_vertex_range : forall a s, vertex_range (shift a s) = map (vadd a) (vertex_range s).
